@@ -72,6 +72,15 @@ ApplyT(fs, ev, how, tot) ==
   ELSE fs
 
 Apply(fs, ev, how) == ApplyT(fs, ev, how, [man |-> W, chain |-> ChainWrites(ev.h)])
+\* the same with a user-space buffer in front of the file (io.BufferedWriter): write calls only fill the
+\* buffer; its content reaches the file at flush / close and is lost when the process dies before
+ApplyB(fs, ev, how, tot) ==
+  IF ev.k = "write" THEN fs
+  ELSE IF ev.k \in {"flush", "close"} THEN
+       (IF how = "none" \/ fs[ev.f].len = -1 \/ fs[ev.f].len = fs[ev.f].total THEN fs
+        ELSE IF how = "partial" THEN [fs EXCEPT ![ev.f].part = TRUE]
+        ELSE [fs EXCEPT ![ev.f].len = fs[ev.f].total, ![ev.f].part = FALSE])
+  ELSE ApplyT(fs, ev, how, tot)
 
 (***************************************************************************)
 (* The loader on one history (history.load_from_path)                      *)
